@@ -88,9 +88,7 @@ pub fn gen(seed: u64, tier: Tier) -> ScenarioSpec {
     if rng.chance(1, 10) {
         spec.sink.enospc_after = Some(if rng.chance(1, 2) { (len as u64).saturating_sub(1 + rng.below(64)) } else { rng.below(len.max(1) as u64) });
     }
-    if rng.chance(1, 10) {
-        spec.knobs.insert("prelude".into(), 2);
-    }
+    spec.knobs.insert("prelude".into(), gen_prelude(&mut rng, &[2, 4, 5], 5));
     if rng.chance(1, 2) {
         spec.knobs.insert("reread_prefix".into(), *rng.pick(&[1i64, 7, 16, 64, 4099]));
     }
